@@ -257,7 +257,7 @@ def main(ck):
     import eng
     repo = eng.REPO
     quick = ck.quick()
-    jobs_n = min(14, max(2, (os.cpu_count() or 4) - 2))
+    jobs_n = int(os.environ.get('C25_JOBS') or min(14, max(2, (os.cpu_count() or 4) - 2)))
     V = Verdicts(ck)
     rng = ck.rng
 
@@ -265,7 +265,9 @@ def main(ck):
     cases = []
     if ck.replay_path:
         rp = json.load(open(ck.replay_path))
-        r = rp.get('replay') or {}
+        r = rp.get('replay') or rp.get('detail') or {}
+        if not isinstance(r, dict):
+            r = {}
         cases.append({'origin': 'replay', 'text': r.get('script', ''), 'gen': None})
     else:
         for name, text in WITNESSES:
@@ -375,7 +377,7 @@ def main(ck):
     run_jobs = []
     gen_ok = [i for i, c in enumerate(cases) if c['gen'] is not None and recs[i].get('stage') == 'done']
     wit = [i for i, c in enumerate(cases) if c['origin'].startswith('witness:')]
-    n_run_gen, n_run_corpus = (40, 50) if quick else (400, 500)
+    n_run_gen, n_run_corpus = (40, 50) if quick else (300, 500)
     for i in rng.sample(gen_ok, min(n_run_gen, len(gen_ok))):
         g = cases[i]['gen']
         run_jobs.append({'id': i, 'text': cases[i]['text'], 'structures': g['structures'], 'datapoints': g['datapoints'], 'budget': 90})
@@ -404,7 +406,10 @@ def main(ck):
         j.update(inp)
         run_jobs.append(j)
     if ck.replay_path and cases:
-        r = (json.load(open(ck.replay_path)).get('replay') or {})
+        r = json.load(open(ck.replay_path))
+        r = r.get('replay') or r.get('detail') or {}
+        if not isinstance(r, dict):
+            r = {}
         if r.get('structures'):
             run_jobs = [{'id': 0, 'text': cases[0]['text'], 'structures': r['structures'], 'datapoints': r['datapoints'], 'budget': 120}]
         elif r.get('inputs'):
